@@ -250,8 +250,8 @@ theorem scopeInfo_fields {esc : Bytes → Bytes} {legacy : Bool} {s : Scope} {e 
     (h : scopeInfoMetric esc legacy s = some e) :
     e.name = b "otel_scope_info" ∧ e.help = b "Instrumentation Scope metadata" ∧ e.typ = MType.gauge ∧
     e.payload = OutPayload.num 4 ∧
-    e.labels = getAttrs esc legacy [(scopeNameLabel, s.name), (scopeVersionLabel, s.version)] := by
-  unfold scopeInfoMetric at h
+    e.labels = getAttrs esc legacy (scopeInfoAttrs s.key) := by
+  unfold scopeInfoMetric scopeInfoOfKey at h
   simp only at h
   split at h
   · simp only [Option.some.injEq] at h; subst h; exact ⟨rfl, rfl, rfl, rfl, rfl⟩
